@@ -16,9 +16,13 @@ DECIDES = ("Decided: ONLY the last sentence of the property (batching several pr
            "its own directory and that directory is the package the translator printed - the package string handed to "
            "the translator and the directory component of the written file derive from the same packages[i], correct "
            "program index 0 / incorrect index 1; and (pool typestate) the package names of one batch are drawn between "
-           "two resets of the word pool, with no call path from one draw to the next that reaches reset_word_pool().")
-NOT_DECIDED = ("that the emitted Java is a syntactically valid compilation unit accepted by javac - this needs javac's "
-               "verdict on generated text and is out of reach of static analysis of the generator.")
+           "two resets of the word pool, with no call path from one draw to the next that reaches reset_word_pool(). "
+           "Of the first sentence one necessary condition of syntactic validity: on every decision-consistent path "
+           "through every method of the Java translator the string literals it evaluates are balanced in (), {}, [], <> "
+           "and double quotes (C02-R5), so the emitted compilation unit is balanced by induction over the tree.")
+NOT_DECIDED = ("that the emitted Java is accepted by javac (statement terminators, keywords, boxing, inference, every "
+               "other rule of the language) - this needs javac's verdict on generated text and is out of reach of static "
+               "analysis of the generator; bracket balance is the only clause of syntactic validity that is decided.")
 
 H = "hephaestus"
 
@@ -282,7 +286,16 @@ def rules():
         RuleSpec("C02-R2", "distinct package names within a batch (word-pool typestate)", 7, r2_distinct_packages),
         RuleSpec("C02-R3", "Java poly expressions (lambda, method reference) are no inference sources for the erasure", 2, r3_poly),
         RuleSpec("C02-R4", "no primitive type arguments: instantiation pools are boxed", 3, r4_no_primitive_type_arguments),
+        RuleSpec("C02-R5", "Java text: the literals every method of the Java translator evaluates are balanced on every path", 40,
+                 r5_java_balance,
+                 "necessary for a syntactically valid compilation unit: (), {}, [], <>, double quotes balanced by "
+                 "induction over the tree"),
     ]
+
+
+def r5_java_balance(repo):
+    from .. import balance
+    return balance.check_module(repo, "src.translators.java", "C02-R5", "java", Ob)
 
 
 # -- variants ---------------------------------------------------------------------------
@@ -351,6 +364,27 @@ def _t_rename(tree):
     V.rename_local(f, "batch_packages", "names")
 
 
+def _drop_char(fname, ch, nth=0):
+    def edit(tree):
+        f = V.find_def(tree, fname)
+        cs = [n for n in ast.walk(f) if isinstance(n, ast.Constant) and isinstance(n.value, str) and ch in n.value]
+        if len(cs) <= nth:
+            raise V.SkipVariant("no literal with %r in %s" % (ch, fname))
+        c = cs[nth]
+        i = c.value.rindex(ch)
+        c.value = c.value[:i] + c.value[i + 1:]
+    return edit
+
+
+def _v_is_paren(tree):
+    f = V.find_def(tree, "JavaTranslator.visit_conditional")
+    cs = [n for n in ast.walk(f) if isinstance(n, ast.Constant) and isinstance(n.value, str) and "(" in n.value]
+    if not cs:
+        raise V.SkipVariant("no parenthesis literal")
+    c = cs[0]
+    V.replace_node(tree, c, V.parse_expr("(%r if node.is_final else %r)" % (c.value, c.value.replace("(", "", 1))))
+
+
 def variants():
     h = "hephaestus.py"
     return [
@@ -363,6 +397,16 @@ def variants():
         V.Variant("word() keeps the word in the pool", "src/utils.py", _v_word_keeps, {"C02-R2"}),
         V.Variant("tool error removes the whole batch directory", h, _v_cleanup_on_error, {"C02-R1"}),
         V.Variant("one temporary directory for all batches", h, _v_one_dir, {"C02-R2"}),
+        V.Variant("java: cast of a generic array loses its closing parenthesis", "src/translators/java.py",
+                  _drop_char("JavaTranslator.visit_array_expr", ")"), {"C02-R5"}),
+        V.Variant("java: a class body is never closed", "src/translators/java.py",
+                  _drop_char("JavaTranslator.visit_class_decl", "}"), {"C02-R5"}),
+        V.Variant("java: type arguments of a call lose their closing angle bracket", "src/translators/java.py",
+                  _drop_char("JavaTranslator.visit_func_decl", ">", 1), {"C02-R5"}),
+        V.Variant("java: string constant opened but not closed", "src/translators/java.py",
+                  _drop_char("JavaTranslator.visit_string_constant", '"'), {"C02-R5"}),
+        V.Variant("java: parenthesis closed only when the negation is printed (correlated branches broken)",
+                  "src/translators/java.py", _v_is_paren, {"C02-R5"}),
         V.Variant("twin: rename batch_packages", h, _t_rename, None, twin=True),
         V.Variant("twin: whole tree reformatted by ast.unparse", None, None, None, twin=True),
     ]
